@@ -257,6 +257,14 @@ Definition design_line (c : cfg) (l : line) : res line :=
   let* p := pad_chain c (conn c (l_els l1)) in
   Ok (with_els l1 p).
 
+(* the entry point of the tools, worker_utils.designed_network(..., no_insert_edfas): add_missing_elements_in_network
+   (splitting and amplifier insertion) is skipped when the option is set; connector losses and padding always run *)
+Definition design_line_opt (no_insert : bool) (c : cfg) (l : line) : res line :=
+  if no_insert then
+    let* p := pad_chain c (conn c (l_els l)) in
+    Ok (with_els l p)
+  else design_line c l.
+
 (* ---------- observations: validators (reflection theorems in Proofs/Chain.v) ---------- *)
 Inductive node := NEnd (k : ekind) | NEl (e : elem).
 Definition path (sk dk : ekind) (els : list elem) : list node := NEnd sk :: map NEl els ++ [NEnd dk].
